@@ -19,6 +19,7 @@ Section Machine.
              (backup : bool)
   | OpDelete (ids : list str) (backup : bool)
   | OpAddRel (p c : str) (l : Z)
+             (retype : bool)                (* child_func sets the child's featuretype to "retyped" and the row is rewritten *)
   | OpReopen.
 
   (* counters reached when one step fails: _id_handler has already drawn from the counter when the
@@ -35,9 +36,11 @@ Section Machine.
                   end
     end.
 
-  (* _finalize: INSERT OR REPLACE every in-memory counter into the autoincrements table *)
+  (* _finalize: INSERT OR REPLACE every in-memory counter into the autoincrements table: the table
+     then holds the in-memory entries and those old rows whose base has no in-memory entry *)
+  Definition has_key (k : str) (m : counters) : bool := existsb (fun kn => str_eqb k (fst kn)) m.
   Definition persist (table mem : counters) : counters :=
-    fold_left (fun acc kn => auto_set (fst kn) (snd kn) acc) mem table.
+    mem ++ filter (fun kn => negb (has_key (fst kn) mem)) table.
 
   Definition with_auto (st : ist) (a : counters) : ist := mkSt (s_rows st) (s_rels st) (s_dups st) a.
 
@@ -73,17 +76,21 @@ Section Machine.
     let rels := filter (fun x => negb (mem_str (rel_parent x) ids || mem_str (rel_child x) ids)) (s_rels d) in
     (mkM (mkSt rows rels (s_dups d) (s_auto d)) (m_mem s) bak, Ok tt).
 
-  Definition do_addrel (s : mstate) (p c : str) (l : Z) : mstate * result unit :=
+  Definition RETYPED : str := [114;101;116;121;112;101;100]%N.
+
+  Definition do_addrel (s : mstate) (p c : str) (l : Z) (retype : bool) : mstate * result unit :=
     let d := m_disk s in
     if negb (has_id p (s_rows d)) || negb (has_id c (s_rows d)) then (s, Err ENotFound)
     else if has_rel (mkRel p c l) (s_rels d) then (s, Err EIntegrity)
-    else (mkM (mkSt (s_rows d) (s_rels d ++ [mkRel p c l]) (s_dups d) (s_auto d)) (m_mem s) (m_bak s), Ok tt).
+    else
+      let rows := if retype then update_id c (fun r => set_bin (setf FFtype RETYPED r)) (s_rows d) else s_rows d in
+      (mkM (mkSt rows (s_rels d ++ [mkRel p c l]) (s_dups d) (s_auto d)) (m_mem s) (m_bak s), Ok tt).
 
   Definition step (s : mstate) (o : op) : mstate * result unit :=
     match o with
     | OpUpdate fs strat spec window fail_at backup => do_update s fs strat spec window fail_at backup
     | OpDelete ids backup => do_delete s ids backup
-    | OpAddRel p c l => do_addrel s p c l
+    | OpAddRel p c l rt => do_addrel s p c l rt
     | OpReopen => (mkM (m_disk s) (s_auto (m_disk s)) (m_bak s), Ok tt)
     end.
 
